@@ -25,6 +25,7 @@ import (
 	"go/token"
 	"os"
 	"path/filepath"
+	"reflect"
 	"sort"
 	"strconv"
 	"strings"
@@ -125,6 +126,9 @@ func main() {
 			}
 		}
 	}
+	for _, f := range files {
+		collectChanNames(f)
+	}
 	for i, f := range files {
 		rewriteFile(f, names[i])
 		f.Comments = nil
@@ -186,8 +190,249 @@ type rewriter struct {
 	used     bool
 }
 
+// ---------------------------------------------------------------------------
+// channel operations
+// ---------------------------------------------------------------------------
+
+// struct fields declared with a channel type / with another type, by name
+var chanFields = map[string]bool{}
+var otherFields = map[string]bool{}
+
+func isMakeChan(e ast.Expr) bool {
+	c, ok := e.(*ast.CallExpr)
+	if !ok || len(c.Args) == 0 {
+		return false
+	}
+	if id, ok := c.Fun.(*ast.Ident); !ok || id.Name != "make" {
+		return false
+	}
+	_, ok = c.Args[0].(*ast.ChanType)
+	return ok
+}
+
+// collectChanNames records the struct fields that are channels.
+func collectChanNames(f *ast.File) {
+	ast.Inspect(f, func(n ast.Node) bool {
+		if st, ok := n.(*ast.StructType); ok && st.Fields != nil {
+			for _, fl := range st.Fields.List {
+				_, isChan := fl.Type.(*ast.ChanType)
+				for _, id := range fl.Names {
+					if isChan {
+						chanFields[id.Name] = true
+					} else {
+						otherFields[id.Name] = true
+					}
+				}
+			}
+		}
+		return true
+	})
+}
+
+// isChanExpr reports whether e is syntactically known to be a channel: an
+// identifier whose declaration (resolved by the parser) has a channel type or
+// is initialised by make(chan ...), or a struct field that is declared as a
+// channel and never as anything else.
+func isChanExpr(e ast.Expr) bool {
+	switch t := e.(type) {
+	case *ast.ParenExpr:
+		return isChanExpr(t.X)
+	case *ast.SelectorExpr:
+		return chanFields[t.Sel.Name] && !otherFields[t.Sel.Name]
+	case *ast.Ident:
+		if t.Obj == nil {
+			return false
+		}
+		switch d := t.Obj.Decl.(type) {
+		case *ast.Field:
+			_, ok := d.Type.(*ast.ChanType)
+			return ok
+		case *ast.ValueSpec:
+			if _, ok := d.Type.(*ast.ChanType); ok {
+				return true
+			}
+			for i, id := range d.Names {
+				if id.Name == t.Name && i < len(d.Values) {
+					return isMakeChan(d.Values[i])
+				}
+			}
+		case *ast.AssignStmt:
+			for i, l := range d.Lhs {
+				if id, ok := l.(*ast.Ident); ok && id.Name == t.Name && i < len(d.Rhs) {
+					return isMakeChan(d.Rhs[i])
+				}
+			}
+		}
+	}
+	return false
+}
+
+func vcall(fn string, args ...ast.Expr) *ast.CallExpr {
+	return &ast.CallExpr{Fun: &ast.SelectorExpr{X: ast.NewIdent("vsimrt"), Sel: ast.NewIdent(fn)}, Args: args}
+}
+
+var exprType = reflect.TypeOf((*ast.Expr)(nil)).Elem()
+var stmtType = reflect.TypeOf((*ast.Stmt)(nil)).Elem()
+
+// rewriteChans rewrites the channel operations below n (in place) and returns
+// the replacement for n itself. inComm: n is the communication of a select
+// case and must stay a real channel operation.
+func (r *rewriter) rewriteChans(n ast.Node) ast.Node {
+	if n == nil || reflect.ValueOf(n).IsNil() {
+		return n
+	}
+	switch t := n.(type) {
+	case *ast.SelectStmt:
+		hasDefault := false
+		for _, c := range t.Body.List {
+			if c.(*ast.CommClause).Comm == nil {
+				hasDefault = true
+			}
+		}
+		if !hasDefault {
+			fail("%s: select without a default case: blocking select in the code under test is not supported by the simulator", fset.Position(t.Pos()))
+		}
+		for _, c := range t.Body.List {
+			cc := c.(*ast.CommClause)
+			// the communication itself stays real (non-blocking thanks to default);
+			// only sub-expressions and the body are rewritten
+			switch cm := cc.Comm.(type) {
+			case *ast.SendStmt:
+				cm.Chan = r.rewriteChans(cm.Chan).(ast.Expr)
+				cm.Value = r.rewriteChans(cm.Value).(ast.Expr)
+			case *ast.ExprStmt:
+				if u, ok := cm.X.(*ast.UnaryExpr); ok {
+					u.X = r.rewriteChans(u.X).(ast.Expr)
+				}
+			case *ast.AssignStmt:
+				if u, ok := cm.Rhs[0].(*ast.UnaryExpr); ok {
+					u.X = r.rewriteChans(u.X).(ast.Expr)
+				}
+			}
+			for i := range cc.Body {
+				cc.Body[i] = r.rewriteChans(cc.Body[i]).(ast.Stmt)
+			}
+		}
+		chanOps++
+		return t
+	case *ast.SendStmt:
+		chanOps++
+		r.used = true
+		ch := r.rewriteChans(t.Chan).(ast.Expr)
+		v := r.rewriteChans(t.Value).(ast.Expr)
+		return &ast.ExprStmt{X: vcall("Send", ch, v)}
+	case *ast.UnaryExpr:
+		if t.Op == token.ARROW {
+			chanOps++
+			r.used = true
+			return vcall("Recv", r.rewriteChans(t.X).(ast.Expr))
+		}
+	case *ast.AssignStmt:
+		if len(t.Lhs) == 2 && len(t.Rhs) == 1 {
+			if u, ok := t.Rhs[0].(*ast.UnaryExpr); ok && u.Op == token.ARROW {
+				chanOps++
+				r.used = true
+				t.Rhs[0] = vcall("Recv2", r.rewriteChans(u.X).(ast.Expr))
+				for i := range t.Lhs {
+					t.Lhs[i] = r.rewriteChans(t.Lhs[i]).(ast.Expr)
+				}
+				return t
+			}
+		}
+	case *ast.RangeStmt:
+		if isChanExpr(t.X) {
+			chanOps++
+			r.used = true
+			// for k := range ch { body }  ->  for { k, ok := Recv2(ch); if !ok { break }; body }
+			body := r.rewriteChans(t.Body).(*ast.BlockStmt)
+			key := t.Key
+			if key == nil {
+				key = ast.NewIdent("_")
+			}
+			tok := t.Tok
+			if id, ok := key.(*ast.Ident); ok && id.Name == "_" || tok == token.ILLEGAL {
+				tok = token.DEFINE
+			}
+			okName := ast.NewIdent("vsimOk")
+			recv := &ast.AssignStmt{Lhs: []ast.Expr{key, okName}, Tok: token.DEFINE, Rhs: []ast.Expr{vcall("Recv2", t.X)}}
+			if tok == token.ASSIGN {
+				// the loop variable exists already: receive into a temporary
+				tmp := ast.NewIdent("vsimV")
+				recv = &ast.AssignStmt{Lhs: []ast.Expr{tmp, okName}, Tok: token.DEFINE, Rhs: []ast.Expr{vcall("Recv2", t.X)}}
+				body.List = append([]ast.Stmt{&ast.AssignStmt{Lhs: []ast.Expr{key}, Tok: token.ASSIGN, Rhs: []ast.Expr{tmp}}}, body.List...)
+			}
+			brk := &ast.IfStmt{Cond: &ast.UnaryExpr{Op: token.NOT, X: okName}, Body: &ast.BlockStmt{List: []ast.Stmt{&ast.BranchStmt{Tok: token.BREAK}}}}
+			// a `continue` in the body re-enters the for and receives again: same as range
+			body.List = append([]ast.Stmt{recv, brk}, body.List...)
+			return &ast.ForStmt{Body: body}
+		}
+	}
+	// generic traversal: replace Expr / Stmt / slices of them in the fields of n
+	v := reflect.ValueOf(n)
+	if v.Kind() == reflect.Ptr {
+		v = v.Elem()
+	}
+	if v.Kind() != reflect.Struct {
+		return n
+	}
+	for i := 0; i < v.NumField(); i++ {
+		f := v.Field(i)
+		if !f.CanSet() {
+			continue
+		}
+		switch {
+		case f.Type() == exprType || f.Type() == stmtType:
+			if f.IsNil() {
+				continue
+			}
+			f.Set(reflect.ValueOf(r.rewriteChans(f.Interface().(ast.Node))))
+		case f.Kind() == reflect.Slice && (f.Type().Elem() == exprType || f.Type().Elem() == stmtType):
+			for j := 0; j < f.Len(); j++ {
+				e := f.Index(j)
+				if e.IsNil() {
+					continue
+				}
+				e.Set(reflect.ValueOf(r.rewriteChans(e.Interface().(ast.Node))))
+			}
+		case f.Kind() == reflect.Ptr && !f.IsNil():
+			if nn, ok := f.Interface().(ast.Node); ok {
+				switch nn.(type) {
+				case *ast.CommentGroup, *ast.Ident, *ast.BasicLit:
+				default:
+					r.rewriteChans(nn)
+				}
+			}
+		case f.Kind() == reflect.Slice:
+			for j := 0; j < f.Len(); j++ {
+				e := f.Index(j)
+				if e.Kind() == reflect.Ptr && !e.IsNil() {
+					if nn, ok := e.Interface().(ast.Node); ok {
+						switch nn.(type) {
+						case *ast.Comment, *ast.CommentGroup, *ast.Ident, *ast.ImportSpec:
+						default:
+							r.rewriteChans(nn)
+						}
+					}
+				} else if e.Kind() == reflect.Interface && !e.IsNil() {
+					if nn, ok := e.Interface().(ast.Node); ok {
+						r.rewriteChans(nn)
+					}
+				}
+			}
+		}
+	}
+	return n
+}
+
 func rewriteFile(f *ast.File, fname string) {
 	r := &rewriter{file: f, fname: fname}
+	for _, d := range f.Decls {
+		if fd, ok := d.(*ast.FuncDecl); ok && fd.Body != nil {
+			r.rewriteChans(fd.Body)
+		} else if gd, ok := d.(*ast.GenDecl); ok && gd.Tok == token.VAR {
+			r.rewriteChans(gd)
+		}
+	}
 	for _, im := range f.Imports {
 		if im.Path.Value == `"sync"` {
 			r.syncName = "sync"
@@ -435,10 +680,6 @@ func (r *rewriter) exprs(n ast.Node) {
 		case *ast.FuncLit:
 			r.funcBody(t.Body, t.Pos())
 			return false
-		case *ast.UnaryExpr:
-			if t.Op == token.ARROW {
-				chanOps++
-			}
 		}
 		return true
 	})
@@ -491,14 +732,12 @@ func (r *rewriter) stmt(s ast.Stmt) {
 			cc.Body = r.stmts(cc.Body)
 		}
 	case *ast.SelectStmt:
-		chanOps++
 		for _, c := range t.Body.List {
 			cc := c.(*ast.CommClause)
 			r.stmt(cc.Comm)
 			cc.Body = r.stmts(cc.Body)
 		}
 	case *ast.SendStmt:
-		chanOps++
 		r.exprs(t.Chan)
 		r.exprs(t.Value)
 	case *ast.GoStmt:
